@@ -79,6 +79,24 @@ def check_between(job, case):
     return {"viol": msgs, "obs": common.digest(r["page"] or ""), "nt": common.digest(job), "cls": msgs[0].split(":")[0] if msgs else None}
 
 
+def check_cfg(job, case):
+    """the same under a non-default configuration (job = (events, cfg items))"""
+    from .. import refmodel, rstobs
+    events, cfg = job[0], dict(job[1])
+    text, r = modsearch.run_module(events, cfg, case)
+    if r["page"] is None:
+        msgs = [f"error: pipeline failed on a well-formed module: {r['error']}"]
+    else:
+        # only the variable and option entries are judged here (what becomes of the bodies' own entries is C08's business)
+        exp = [e for e in refmodel.expected(events, cfg) if e["kind"] in ("option", "data")]
+        obs = [e for e in (rstobs.abstract_entry(b) for b in rstobs.Page(r["page"]).entries()) if e["kind"] in ("option", "data")]
+        msgs = refmodel.compare(exp, obs)
+    dg, nt = common.digest(r["page"] or ""), True
+    msgs = [f"{m}   [config {cfg}]" for m in msgs]
+    return {"viol": msgs, "obs": dg, "nt": common.digest([events, cfg]) if nt else None, "cls": msgs[0].split(":")[0] if msgs else None,
+            "case": {"events": events, "cfg": cfg}}
+
+
 def check(events, case):
     if any("\n" in v for ev in events for v in ev.get("values", [])):
         msgs, dg, nt = check_multiline(events, case)
@@ -146,6 +164,19 @@ def run(ctx):
         for doc in (1, 0):
             jobs.append([{"k": "option", "doc": doc, "name": "FIRST_OPT", "default": d1}, {"k": "option", "doc": doc, "name": "SECOND_OPT"},
                          {"k": "option", "doc": 1 - doc, "name": "THIRD_OPT"}])
+    # commands that differ only in where the blanks between their arguments sit
+    for a, b in ((["core", "util"], ["coreutil"]), ([], None), (["x;y"], ["x", ";y"]), (["a", "b", "c"], ["ab", "c"])):
+        if b is None:
+            jobs.append([{"k": "set", "doc": 1, "name": "OUTDIR", "values": []}, {"k": "set", "doc": 1, "name": "OUT", "values": ["DIR"]}])
+            jobs.append([{"k": "option", "doc": 0, "name": "WITHX", "help": "h"}, {"k": "option", "doc": 0, "name": "WITH", "help": "Xh"}])
+        else:
+            for first, second in ((a, b), (b, a)):
+                jobs.append([{"k": "set", "doc": 1, "name": "BASE_LIBS", "values": first}, {"k": "set", "doc": 1, "name": "BASE_LIBS", "values": second}])
+    # names that look private
+    for nm in ("_PRIVATE_OPT", '"_QUOTED_OPT"', "__DUNDER__", "_"):
+        for doc in (1, 0):
+            jobs += positions({"k": "option", "doc": doc, "name": nm, "default": "ON"})
+        jobs += positions({"k": "set", "doc": 1, "name": nm, "values": ["v"]})
     case = common.rot(["lower", "upper", "mixed"], ctx.seed + 4)[0]
     ctx.cov["bounds"] = {"value_forms": FORMS, "core": CORE, "max_values_all_forms": k_all, "max_values_core": k_core,
                          "helps": HELPS, "defaults": DEFAULTS, "positions": 5, "command_case": case}
@@ -153,6 +184,17 @@ def run(ctx):
     bjobs = [(d, doc) for d in ("ct_add_test", "ct_add_section", "cpp_member") for doc in (0, 1)]
     ctx.sweep(functools.partial(check_between, case=case), bjobs, space="option between a declaration and its implementation",
               selftest=2)
+    # options and variables inside class/test/function bodies while the enclosing kind's undocumented entries are switched off
+    cj = []
+    for off in (("cpp_class",), ("ct_add_test", "ct_add_section"), ("function", "macro"), ("cpp_class", "cpp_member", "cpp_attr")):
+        cfg = tuple(("include_undocumented_" + k, False) for k in off)
+        for doc in (0, 1):
+            opt = {"k": "option", "doc": doc, "default": "ON"}
+            st = {"k": "set", "doc": 1, "values": ["v"]}
+            for body in ([{"k": "cpp_class", "doc": 0}, dict(opt), dict(st)], [{"k": "ct_add_test", "doc": 0}, dict(opt), {"k": "ct_add_section", "doc": 0}, dict(opt)],
+                         [{"k": "function", "doc": 0, "params": []}, dict(opt), dict(st)], [{"k": "cpp_class", "doc": 0}, {"k": "cpp_class", "doc": 0}, dict(opt), {"k": "close"}, dict(opt)]):
+                cj.append((body, cfg))
+    ctx.sweep(functools.partial(check_cfg, case=case), cj, space="option/set inside bodies x switched-off kinds", selftest=1)
     # a sibling file with the same layout whose commands are documented, documented in the same process just before
     from .C04 import check_shadow
     sh = []
@@ -166,6 +208,12 @@ def run(ctx):
 
 
 def replay(case):
+    if isinstance(case, dict) and "cfg" in case:
+        for cs in ("lower", "upper", "mixed"):
+            m = check_cfg((case["events"], tuple(case["cfg"].items())), cs)["viol"]
+            if m:
+                return m
+        return []
     if isinstance(case, dict) and "shadow" in case:
         from .C04 import check_shadow
         return common.in_fork(check_shadow, (case["shadow"],))["viol"]
